@@ -154,20 +154,29 @@ def numeric(rep, fnd, pid, tier):
             cfg["forms"] = [dwtlib.wave_form(name, kf)[1], dwtlib.wave_form(name, kf + 3, synthesis=True)[1]]
             tol = 64 * EPS64 * L * L * J * G ** (4 * J) + 16 * J * L * L * res * G ** (4 * J)
             xa = rng.standard_normal((3, 2, H, W))
-            yl, yh = fw(torch.tensor(xa))
-            en = (yl.numpy() ** 2).sum() + sum((t.numpy() ** 2).sum() for t in yh)
-            e1 = abs(en - (xa ** 2).sum()) / (xa ** 2).sum()
-            # <T x, c> == <x, T^-1 c>  for a random coefficient pyramid c  (inverse is the transpose)
-            cl = torch.tensor(rng.standard_normal(tuple(yl.shape)))
-            chh = [torch.tensor(rng.standard_normal(tuple(t.shape))) for t in yh]
-            lhs = float((yl * cl).sum() + sum((a * b).sum() for a, b in zip(yh, chh)))
-            rhs = float((torch.tensor(xa) * iv((cl, chh))).sum())
-            e2 = abs(lhs - rhs) / max(abs(lhs), 1.0)
-            xg = torch.tensor(xa, requires_grad=True)
-            yl2, yh2 = fw(xg)
-            tot = (yl2 * cl).sum() + sum((a * b).sum() for a, b in zip(yh2, chh))
-            g, = torch.autograd.grad(tot, xg)
-            e3 = float((g - iv((cl, chh))).abs().max())
+            try:
+                yl, yh = fw(torch.tensor(xa))
+                en = (yl.numpy() ** 2).sum() + sum((t.numpy() ** 2).sum() for t in yh)
+                e1 = abs(en - (xa ** 2).sum()) / (xa ** 2).sum()
+                # <T x, c> == <x, T^-1 c>  for a random coefficient pyramid c  (inverse is the transpose)
+                cl = torch.tensor(rng.standard_normal(tuple(yl.shape)))
+                chh = [torch.tensor(rng.standard_normal(tuple(t.shape))) for t in yh]
+                lhs = float((yl * cl).sum() + sum((a * b).sum() for a, b in zip(yh, chh)))
+                xi = iv((cl, chh))
+                if tuple(xi.shape) != tuple(xa.shape):
+                    raise ValueError("the inverse of a pyramid with the forward's shapes has shape %s, the input had %s" % (tuple(xi.shape), xa.shape))
+                rhs = float((torch.tensor(xa) * xi).sum())
+                e2 = abs(lhs - rhs) / max(abs(lhs), 1.0)
+                xg = torch.tensor(xa, requires_grad=True)
+                yl2, yh2 = fw(xg)
+                tot = (yl2 * cl).sum() + sum((a * b).sum() for a, b in zip(yh2, chh))
+                g, = torch.autograd.grad(tot, xg)
+                e3 = float((g - xi).abs().max())
+            except Exception as e:   # noqa
+                n += 1
+                rep.violation("2-D periodization transform pair is not a square orthogonal pair at %s: %r" % (cfg, e),
+                              {"api": "DWT2D periodization", "check": "ortho_num", "cfg": cfg})
+                continue
             n += 1
             rep.nontriv(("ortho_num2", name, H, W, J))
             if not max(e1, e2, e3) <= tol * H * W:
